@@ -1,0 +1,8 @@
+//go:build verif
+
+package lite
+
+// VerifSubstituteBackendParams exposes substituteBackendParams to the verification harness.
+func VerifSubstituteBackendParams(template string, groups []string) string {
+	return substituteBackendParams(template, groups)
+}
